@@ -1,7 +1,7 @@
-// Accessor injected into regex.rs (cfg(test) child module): the regex text handed to the regex crate, the fixed prefix and
-// the case flag of fclones' Regex wrapper.
+// Accessor injected into regex.rs (cfg(test) child module): the regex text handed to the regex crate and the case flag of
+// fclones' Regex wrapper.
 use super::*;
 
-pub(crate) fn parts(r: &Regex) -> (String, String, bool) {
-    (r.regex.as_str().to_string(), r.fixed_prefix.clone(), r.case_insensitive)
+pub(crate) fn parts(r: &Regex) -> (String, bool) {
+    (r.regex.as_str().to_string(), r.case_insensitive)
 }
